@@ -106,3 +106,206 @@ def elem_obs(e):
 def header_class(name):
 	from httoop.header import Authorization, ProxyAuthorization
 	return {'Authorization': Authorization, 'Proxy-Authorization': ProxyAuthorization}[name]
+
+
+# ---------------------------------------------------------------------------------------------------------------------
+# wave-4 strengthening, shared by C16 and C17: READ-ONLY OBSERVERS.  Everything below only looks at an object (or at an
+# object that shares state with it); whatever it returns or raises is ignored -- what is judged is what the object does
+# AFTERWARDS, against the independent expectation for a fresh object that nobody looked at.
+import copy as _copy
+import operator as _op
+
+_CMP = [('eq', _op.eq), ('ne', _op.ne), ('lt', _op.lt), ('le', _op.le), ('gt', _op.gt), ('ge', _op.ge)]
+
+
+def _quiet(fn, *a):
+	try:
+		return fn(*a)
+	except Exception:
+		return None
+
+
+def _map_observers():
+	"""name -> callable(mapping): every read-only use of a parameter mapping (ByteUnicodeDict / dict)"""
+	obs = {
+		'repr': repr, 'str': str, 'ascii': ascii, 'fmt_r': lambda m: '%r' % (m,), 'fmt_s': lambda m: '%s' % (m,), 'format': lambda m: '{}{!r}'.format(m, m),
+		'len': len, 'bool': bool, 'iter': lambda m: [k for k in m], 'list': list, 'tuple': tuple, 'set': set, 'sorted': sorted, 'reversed': lambda m: list(reversed(m)),
+		'dict': dict, 'items': lambda m: list(m.items()), 'keys': lambda m: list(m.keys()), 'values': lambda m: list(m.values()),
+		'items_repr': lambda m: repr(m.items()), 'copy': lambda m: m.copy(), 'copy_copy': _copy.copy, 'deepcopy': _copy.deepcopy, 'hash': hash,
+		'copy_repr': lambda m: repr(_copy.copy(m)), 'deepcopy_repr': lambda m: repr(_copy.deepcopy(m)),
+		'same_type': lambda m: type(m)(m), 'max': lambda m: (max(m), min(m)), 'star': lambda m: dict(**{(k.decode('latin1') if isinstance(k, bytes) else k): v for k, v in m.items()}),
+		'in': lambda m: [k in m for k in list(m) + ['password', b'password', 'response', b'response', 'nope', b'', 'PASSWORD', b'Response']],
+		'get': lambda m: [m.get(k) for k in list(m) + ['password', b'password', 'response', b'nonce', 'nope', 'PASSWORD']],
+		'get_default': lambda m: [m.get(k, b'dflt') for k in ['password', b'password', 'response', 'nope', b'nope']],
+		'getitem': lambda m: [_quiet(m.__getitem__, k) for k in list(m) + ['password', b'password', 'response', 'nope', b'nope']],
+		'setdefault_present': lambda m: [m.setdefault(k, b'dflt') for k in list(m)],
+		'vars': lambda m: (_quiet(vars, m), dir(m)),
+	}
+	for name, fn in _CMP:
+		obs['cmp_' + name] = (lambda fn: lambda m: [(_quiet(fn, m, y), _quiet(fn, y, m)) for y in (dict(m), type(m)(m), {}, None, 0, b'', '', [], m)])(fn)
+	return obs
+
+
+MAP_OBSERVERS = _map_observers()
+
+
+def _elem_observers():
+	"""name -> callable(element): every read-only use of a header element"""
+	obs = {
+		'repr': repr, 'str': str, 'bytes': bytes, 'ascii': ascii, 'compose': lambda x: x.compose(), 'fmt_r': lambda x: '%r' % (x,), 'fmt_s': lambda x: '%s' % (x,),
+		'format': lambda x: '{}'.format(x), 'format_r': lambda x: '{!r:>5}'.format(x), 'fmt_bytes': lambda x: b'%s' % (x,), 'logging': _log_it,
+		'len': len, 'bool': bool, 'iter': lambda x: list(iter(x)), 'hash': hash, 'hash_id': lambda x: {id(x): x},
+		'copy': _copy.copy, 'deepcopy': _copy.deepcopy, 'copy_repr': lambda x: repr(_copy.copy(x)), 'deepcopy_repr': lambda x: repr(_copy.deepcopy(x)),
+		'copy_bytes': lambda x: bytes(_copy.copy(x)), 'deepcopy_bytes': lambda x: bytes(_copy.deepcopy(x)), 'copy_str': lambda x: str(_copy.copy(x)),
+		'vars': lambda x: (dict(vars(x)), dir(x)), 'vars_repr': lambda x: repr(vars(x)),
+		'attrs': lambda x: [_quiet(getattr, x, n) for n in dir(x) if not n.startswith('__')],   # every attribute and property is READ (methods are not called)
+		'attr_username': lambda x: x.username, 'attr_password': lambda x: x.password, 'attr_scheme': lambda x: x.scheme, 'attr_value': lambda x: x.value,
+		'attr_params': lambda x: x.params, 'attr_realm': lambda x: x.realm, 'attr_encoding': lambda x: x.encoding, 'attr_schemes': lambda x: (dict(x.schemes), x.priority, x.list_element),
+		'sorted_cls': lambda x: type(x).sorted([x, _copy.copy(x)]), 'sorted': lambda x: sorted([x, _copy.copy(x), x]), 'in_list': lambda x: (x in [_copy.copy(x)], [x].index(x), [x, x].count(x)),
+		'isinstance': lambda x: (isinstance(x, type(x)), type(x).__mro__, callable(x)),
+		'join': lambda x: type(x).join([bytes(x), bytes(x)]), 'merge': lambda x: type(x).merge([x], [_copy.copy(x)]),
+	}
+	for name, fn in _CMP:
+		# the whole operator family, both operand orders, every operand type the API accepts (an element, text, octets) and some it does not
+		obs['cmp_' + name] = (lambda fn: lambda x: [(_quiet(fn, x, y), _quiet(fn, y, x)) for y in (_copy.copy(x), _copy.deepcopy(x), type(x)('Other'), x.value, x.value.lower(),
+			x.value.encode('ascii', 'replace'), 'Basic', 'Digest', b'Basic', '', None, 0, x)])(fn)
+	for name, fn in MAP_OBSERVERS.items():
+		obs['p:' + name] = (lambda fn: lambda x: fn(x.params))(fn)
+	return obs
+
+
+def _log_it(x):
+	import io
+	import logging
+	lg = logging.Logger('verif-observer')
+	lg.addHandler(logging.StreamHandler(io.StringIO()))
+	lg.warning('element %r / %s', x, x)
+	lg.warning('params %r', x.params)
+
+
+ELEM_OBSERVERS = _elem_observers()
+# ways in which the observed object relates to the one that is used afterwards
+TARGETS = ['self', 'self', 'copy', 'alias', 'deepcopy']
+
+
+def _hdrs_observers():
+	"""name -> callable(headers, fieldname): every read-only use of a header block that holds the field"""
+	obs = {
+		'repr': lambda h, n: repr(h), 'str': lambda h, n: str(h), 'bytes': lambda h, n: bytes(h), 'compose': lambda h, n: h.compose(), 'fmt_r': lambda h, n: '%r %s' % (h, h),
+		'len': lambda h, n: len(h), 'bool': lambda h, n: bool(h), 'iter': lambda h, n: [k for k in h], 'sorted': lambda h, n: sorted(h), 'dict': lambda h, n: dict(h),
+		'items': lambda h, n: list(h.items()), 'keys': lambda h, n: list(h.keys()), 'values': lambda h, n: list(h.values()), 'values_of': lambda h, n: h.values(n),
+		'in': lambda h, n: [k in h for k in (n, n.lower(), n.upper(), n.encode('ascii'), 'Nope')], 'get': lambda h, n: [h.get(k) for k in (n, n.lower(), 'Nope')],
+		'getitem': lambda h, n: [_quiet(h.__getitem__, k) for k in (n, n.upper(), 'Nope')], 'getbytes': lambda h, n: [h.getbytes(k) for k in (n, n.swapcase(), 'Nope')],
+		'element': lambda h, n: h.element(n), 'element_repr': lambda h, n: repr(h.element(n)), 'element_bytes': lambda h, n: bytes(h.element(n)), 'element_attrs': lambda h, n: ELEM_OBSERVERS['attrs'](h.element(n)),
+		'elements': lambda h, n: h.elements(n), 'elements_repr': lambda h, n: repr(h.elements(n)), 'get_element': lambda h, n: [_quiet(h.get_element, n, w) for w in (None, 'Basic', 'Digest', 'x')],
+		'copy': lambda h, n: _copy.copy(h), 'deepcopy': lambda h, n: _copy.deepcopy(h), 'copy_repr': lambda h, n: repr(_copy.copy(h)), 'copy_bytes': lambda h, n: bytes(_copy.copy(h)),
+		'same_type': lambda h, n: type(h)(h), 'hash': lambda h, n: hash(h), 'setdefault_present': lambda h, n: h.setdefault(n, b'Basic eDp5'),
+		'vars': lambda h, n: (_quiet(vars, h), dir(h)), 'attrs': lambda h, n: [_quiet(getattr, h, a) for a in dir(h) if not a.startswith('__')],
+	}
+	for name, fn in _CMP:
+		obs['cmp_' + name] = (lambda fn: lambda h, n: [(_quiet(fn, h, y), _quiet(fn, y, h)) for y in (type(h)(h), dict(h), type(h)(), {}, None, b'', h)])(fn)
+	return obs
+
+
+HDRS_OBSERVERS = _hdrs_observers()
+
+
+def observe_elem(el, names, target='self'):
+	"""apply the named read-only observers to the element itself, to a shallow or deep copy of it, or to another element
+	that uses the same parameter mapping object; returns {observer: exception name} for those that raised (information only)"""
+	if target == 'self':
+		x = el
+	elif target == 'copy':
+		x = _copy.copy(el)
+	elif target == 'deepcopy':
+		x = _copy.deepcopy(el)
+	elif target == 'alias':
+		x = type(el)(el.value)
+		x.params = el.params
+	else:
+		raise ValueError(target)
+	raised = {}
+	for n in names:
+		try:
+			ELEM_OBSERVERS[n](x)
+		except Exception as exc:
+			raised[n] = type(exc).__name__
+	return raised
+
+
+def observe_map(m, names):
+	raised = {}
+	for n in names:
+		try:
+			MAP_OBSERVERS[n](m)
+		except Exception as exc:
+			raised[n] = type(exc).__name__
+	return raised
+
+
+def observe_hdrs(h, fieldname, names):
+	raised = {}
+	for n in names:
+		try:
+			HDRS_OBSERVERS[n](h, fieldname)
+		except Exception as exc:
+			raised[n] = type(exc).__name__
+	return raised
+
+
+# (8) the family of ways to READ one parameter of a received element: all of them must give the same octets
+READERS = ['getitem', 'getitem_b', 'get', 'get_b', 'get_default', 'setdefault', 'items', 'values', 'dict', 'copy', 'iter', 'attr', 'copy_el', 'deepcopy_el', 'alias_el', 'vars', 'pop']
+
+
+def read_param(e, key, how):
+	"""one member of the family of read accesses to a parameter of a received element"""
+	kb = key.encode('ascii')
+	if how == 'getitem':
+		return e.params[key]
+	if how == 'getitem_b':
+		return e.params[kb]
+	if how == 'get':
+		return e.params.get(key)
+	if how == 'get_b':
+		return e.params.get(kb)
+	if how == 'get_default':
+		return e.params.get(key, b'\x00default')
+	if how == 'setdefault':
+		return e.params.setdefault(key, b'\x00default')
+	if how == 'items':
+		return dict((k if isinstance(k, bytes) else k.encode('ascii'), v) for k, v in e.params.items())[kb]
+	if how == 'values':
+		return list(e.params.values())[[k if isinstance(k, bytes) else k.encode('ascii') for k in e.params.keys()].index(kb)]
+	if how == 'dict':
+		d = dict(e.params)
+		return d[kb] if kb in d else d[key]
+	if how == 'copy':
+		return e.params.copy()[kb]  # dict.copy() of the mapping is a plain dict: octet keys
+	if how == 'iter':
+		return [e.params[k] for k in e.params if k in (key, kb)][0]
+	if how == 'attr':
+		return getattr(e, key).encode('ascii')
+	if how == 'copy_el':
+		return _copy.copy(e).params[key]
+	if how == 'deepcopy_el':
+		return _copy.deepcopy(e).params[kb]
+	if how == 'alias_el':
+		return type(e)(e.value, e.params).params[key]
+	if how == 'vars':
+		return vars(e)['params'][key]
+	if how == 'pop':
+		return e.params.pop(key)
+	raise ValueError(how)
+
+
+def read_all(e, keys, readers):
+	"""{'key:reader': octets as hex | ['not-bytes', repr] | ['raised', exception name]}"""
+	reads = {}
+	for key in keys:
+		for how in readers:
+			try:
+				v = read_param(e, key, how)
+				reads['%s:%s' % (key, how)] = v.hex() if isinstance(v, bytes) else ['not-bytes', repr(v)[:40]]
+			except Exception as exc:
+				reads['%s:%s' % (key, how)] = ['raised', type(exc).__name__]
+	return reads
